@@ -122,6 +122,39 @@ def check_segmentation(ctx, rid_split, rid_pred):
                     ctx.violate(rid_pred, f"prepare_segmented(keep_sp={keep_sp}) " + ("sees nothing to convert in" if nothing else "demands a conversion of") + f" a shell with angular momenta {ls}, but convert_to_segmented " + ("splits" if nothing else "keeps") + " such a shell: the pre-flight check and the writer disagree (the writer fails after the file was opened, or a writable object is refused)", ps, ps.node, construct=f"prepare_segmented {ls} keep_sp={keep_sp}: nothing-to-do={nothing}")
         if not nbad:
             ctx.ok(rid_pred, f"prepare_segmented returns the same object exactly for the shells convert_to_segmented keeps ({2 * len(SHELLS)} shell / keep_sp combinations; otherwise PrepareDumpError without allow_changes)", f"{ps.module.relpath}:{ps.lineno}")
+        # allow_changes=True: exactly one warning and a *copy* whose basis is the segmented one and whose other
+        # attributes are the caller's; the caller's object keeps its basis
+        for keep_sp in (False, True):
+            shs = [Rec(shell_cls, icenter=i_, angmoms=np.array(ls), kinds=list(ks), exponents=sym_array(f"a{i_}", (2,)), coeffs=sym_array(f"k{i_}", (2, len(ls)))) for i_, (ls, ks) in enumerate(SHELLS[:6])]
+            basis = Rec(basis_cls, shells=shs, conventions={}, primitive_normalization="L2")
+            marker = Rec(None, tag="orbitals")
+            data = Rec(iocls, obasis=basis, title="MARK", mo=marker)
+            e1 = ev(ps.module)
+            e1.warnings = 0
+            try:
+                r = e1.run_free(ps, [data, keep_sp, True, "file", "FMT"], {})
+            except Raised as exc:
+                ctx.violate(rid_pred, f"prepare_segmented(keep_sp={keep_sp}, allow_changes=True) raises {exc.cls} although the conversion is allowed", ps, ps.node, construct=f"prepare_segmented allow keep_sp={keep_sp}: {exc.cls}")
+                continue
+            want = ev(cs.module).run_free(cs, [basis], {"keep_sp": keep_sp})
+            why = None
+            if not isinstance(r, Rec) or r is data:
+                why = "the given object is returned although its basis needs converting"
+            elif getattr(e1, "warnings", 0) != 1:
+                why = f"{getattr(e1, 'warnings', 0)} warning(s) are issued for the conversion (expected exactly one)"
+            elif data.fields["obasis"] is not basis or len(basis.fields["shells"]) != len(shs):
+                why = "the caller's object was modified"
+            elif r.fields.get("title") != "MARK" or r.fields.get("mo") is not marker:
+                why = "attributes other than the basis differ in the converted copy"
+            else:
+                got_s = r.fields["obasis"].fields["shells"] if isinstance(r.fields.get("obasis"), Rec) else None
+                want_s = want.fields["shells"]
+                if got_s is None or len(got_s) != len(want_s) or any(not (same(np.asarray(a.fields["angmoms"]), np.asarray(b.fields["angmoms"])) and list(a.fields["kinds"]) == list(b.fields["kinds"]) and a.fields["icenter"] == b.fields["icenter"] and same(a.fields["exponents"], b.fields["exponents"]) and same(a.fields["coeffs"], b.fields["coeffs"])) for a, b in zip(got_s, want_s)):
+                    why = "the basis of the converted copy is not what convert_to_segmented gives for the caller's basis"
+            if why:
+                ctx.violate(rid_pred, f"prepare_segmented(keep_sp={keep_sp}, allow_changes=True): {why}", ps, ps.node, construct=f"prepare_segmented allow keep_sp={keep_sp}: {why}"[:150])
+            else:
+                ctx.ok(rid_pred, f"prepare_segmented(keep_sp={keep_sp}, allow_changes=True): one warning; a copy with the segmented basis and the caller's other attributes; the caller's object untouched", f"{ps.module.relpath}:{ps.lineno}")
         # missing basis
         try:
             ev(ps.module).run_free(ps, [Rec(iocls, obasis=None), False, False, "file", "FMT"], {})
